@@ -4,5 +4,12 @@ func moreGens() []struct {
 	file string
 	fn   func(string) string
 } {
-	return nil
+	return []struct {
+		file string
+		fn   func(string) string
+	}{
+		{"GenLoads.v", genLoads},
+		{"GenRecover.v", genRecover},
+		{"GenConsts.v", genConsts},
+	}
 }
